@@ -327,7 +327,7 @@ Qed.
 Lemma compat_b_sound : forall u k,
   wf_fs u -> WcCore.anchor rn u -> compat_b u k = true -> uokp u k.
 Proof.
-  intros u k Hwf Ha H. split; [exact Hwf|]. split; [exact Ha|].
+  intros u k Hwf Ha H. split; [intros x e Hx; now apply Hwf in Hx|]. split; [exact Ha|].
   unfold compat_b in H. rewrite forallb_forall in H.
   intros x e Hx. specialize (H (x, e) (lookup_In _ _ _ Hx)). cbn in H.
   apply Bool.andb_true_iff in H as [H1 H2]. rewrite forallb_forall in H1. split.
